@@ -680,7 +680,8 @@ MANIFEST = {
             "kind, int/bool text conversions (std::to_string/stoi/strtoul semantics), and the scalar codec round trip load_scalar (emit_scalar "
             "s) = s for every scalar of the property's domain in block and flow context, against a model of yaml-cpp 0.7's emitter and loader "
             "for the emitted subset; the same statement is refuted for EmitScalar as it was before the repair commit (witness \" a\\n\"). "
-            "Tree round trip: full statement kept as a Definition, base layer (single scalar) proved, collections by correspondence only. "
+            "Tree round trip: full statement kept as a Definition, base layer (single scalar) proved, plus a vm_compute sweep of the model over a "
+            "generated family of 34782 small shapes (finite domain); the induction over collections is not mechanised - correspondence only. "
             "All induction, no bounds. Every run re-ties the model to /repo: ~7000 (thorough ~75000) generated trees and 600 (6000) API "
             "histories are run through the extracted model and through the real code (ASan/UBSan build); bytes, trees, results are diffed "
             "and the property's oracles are evaluated on the implementation's observations.",
